@@ -1832,6 +1832,8 @@ def _cumsum(I, x, **kw):
 def seq_sum(I, x):
     """sum of a sequence: uninterpreted SUM over (a fresh name per array
     value) -- only equalities between sums of the *same* array are usable."""
+    if x.elem == "Real":
+        return sum_term(I, 0, x.length, lambda k: x.get(k))
     srt = z3.RealSort() if x.elem != "Int" else z3.IntSort()
     return I.fresh_const("sum", srt)
 
